@@ -244,8 +244,13 @@ def check_stats(case, ctx):
                 _cmp('xcentroid', g('xcentroid'), sh['xcentroid'], 0, ctol + sky_tol)
                 _cmp('ycentroid', g('ycentroid'), sh['ycentroid'], 0, ctol + sky_tol)
                 amb = sh['flags'] & {'det_sign_ambiguous',
-                                     'regularisation_threshold'}
+                                     'regularisation_threshold', 'overflow'}
                 well = float(np.abs(vv).sum()) / abs(m00) < 1e3 and np.all(vv >= 0)
+                if amb == {'det_sign_ambiguous'} and well:
+                    # collinear pixels, non-negative weights: zero determinant
+                    # by definition -> a regularised thin source, never NaN
+                    ctx.event('thin_source_zero_det')
+                    amb = set()
                 if amb:
                     ctx.event('shape_ambiguous')
                 elif well and 'negative_det' not in sh['flags']:
